@@ -155,6 +155,16 @@ def outcomeOf (n : Nat) (tr : Trace) : Outcome :=
 /-- the model's outcome of a correspondence case -/
 def outcome (c : CaseM) : Outcome := outcomeOf c.g (caseTrace c)
 
+/-- configuration in which the uniqueness checker is NOT assumed initialised: it is treated as a read-back cache whose
+    key (the one checker variable) determines the value every racer installs (`isSliceOfUniqueItems`, 7) -/
+def caseCfgU (c : CaseM) : Cfg :=
+  { cache := uniqCell :: c.ops.map (fun o => typeCell o.genType),
+    lazy := [],
+    det := (uniqCell, 7) :: c.ops.map (fun o => (typeCell o.genType, o.genType + 1)) }
+
+/-- the state of a process in which the checker's declaration lost its initialiser (seeded change C15-m2) -/
+def sigmaU : State := fun c => if c = docCell then 1 else if c = routerCell then 1 else 0
+
 /-- the specification: no data race, every verdict as when run alone, the document untouched -/
 def specOutcome : Outcome := ⟨false, false, false⟩
 
